@@ -151,6 +151,15 @@ func c20CrossCheckExtraction(ctx *Ctx, res *Result, tally *c20Tally) {
 			}
 		})
 	}
+	// round 5: scripts of the mixed-mode sweep (the model runs convert_lines = the C09 model)
+	nm := 0
+	c20ModesScripts(int(rng.Intn(16)), func(sc *c20Script) {
+		if nm < 30 && rng.Chance(3) {
+			scripts = append(scripts, sc)
+			nm++
+		}
+	})
+	tally.add("vm_compute_cross_checked_mixed_modes", nm)
 	reqs := make([]string, len(scripts))
 	for i, s := range scripts {
 		reqs[i] = s.request()
@@ -162,7 +171,7 @@ func c20CrossCheckExtraction(ctx *Ctx, res *Result, tally *c20Tally) {
 	}
 	modes := map[string]string{"d": "ModeDefault", "s": "ModeShowAutofix", "a": "ModeAutofix"}
 	var sb strings.Builder
-	sb.WriteString("From PV Require Import Lib.Bytes Model.FileCache Spec.FreshLoad Extract.C20.\nImport ListNotations.\nOpen Scope N_scope.\n")
+	sb.WriteString("From PV Require Import Lib.Bytes Model.FileCache Model.FileCacheLines Spec.FreshLoad Extract.C20.\nImport ListNotations.\nOpen Scope N_scope.\n")
 	nfail := 0
 	for i, s := range scripts {
 		v, ok := c20CoqAnswer(ans[i])
